@@ -635,6 +635,22 @@ func (x *Exec) special(fr *Frame, st *State, ins ssa.Instruction, callee *ssa.Fu
 				h := x.heapGet(st, "g:held", tb.Array(tb.BV(64), tb.Bool))
 				return Val{T: resT, L: []*Term{tb.Select(h, ref)}}, true
 			}
+		case "ghost":
+			if isSpecBody(callee) {
+				nm := ""
+				if c, ok := ssaConstString(fr, args[0]); ok {
+					nm = c
+				} else {
+					x.fatal("ghost(name, obj): name must be a string literal")
+				}
+				ref := x.lockRef(args[1])
+				h := x.heapGet(st, "g:"+nm, tb.Array(tb.BV(64), tb.BV(64)))
+				return Val{T: resT, L: []*Term{tb.Select(h, ref)}}, true
+			}
+		case "sameArr":
+			if isSpecBody(callee) {
+				return Val{T: resT, L: []*Term{tb.Eq(args[0].L[0], args[1].L[0])}}, true
+			}
 		case "sameSlice":
 			if isSpecBody(callee) {
 				a, b := args[0], args[1]
@@ -844,11 +860,13 @@ func (x *Exec) quantifier(fr *Frame, st *State, exists bool, args []Val, resT ty
 	sub := st.clone()
 	sub.reach = tb.True
 	_, body := x.runFunc(nf, sub)
-	rng := tb.And(tb.SLe(args[0].L[0], k), tb.SLt(k, args[1].L[0]))
+	// quantify over the absolute element index when the body reads slice elements at off+k, so
+	// that the plain element read is the instantiation pattern
+	bv, rng, b := tb.reindex(k, args[0].L[0], args[1].L[0], body.L[0])
 	if exists {
-		return Val{T: resT, L: []*Term{tb.Not(tb.Forall([]*Term{k}, tb.Not(tb.And(rng, body.L[0]))))}}
+		return Val{T: resT, L: []*Term{tb.Not(tb.Forall([]*Term{bv}, tb.Not(tb.And(rng, b))))}}
 	}
-	return Val{T: resT, L: []*Term{tb.Forall([]*Term{k}, tb.Implies(rng, body.L[0]))}}
+	return Val{T: resT, L: []*Term{tb.Forall([]*Term{bv}, tb.Implies(rng, b))}}
 }
 
 // runSpec evaluates a stub function (contract clauses) in state st; no obligations, no state change.
@@ -874,8 +892,20 @@ func (x *Exec) runSpec2(fn *ssa.Function, st *State, old *State, args []Val) Val
 	}
 	sub := st.clone()
 	sub.reach = x.tb.True
-	_, res := x.runFunc(nf, sub)
+	ex, res := x.runFunc(nf, sub)
+	// Facts collected while evaluating the (total) spec function - well-formedness of loaded
+	// values, freshness of objects the stub allocates - are true by construction; the clause
+	// values are only meaningful together with them.
+	x.assume(st, ex.reach)
 	return res
+}
+
+// ssaConstString recovers the literal behind a string value built by stringConst.
+func ssaConstString(fr *Frame, v Val) (string, bool) {
+	if v.Str != nil {
+		return *v.Str, true
+	}
+	return "", false
 }
 
 func (x *Exec) noLockHavoc(fn *ssa.Function) bool {
